@@ -115,6 +115,7 @@ func TestC16Automatic(t *testing.T) {
 	rec := evid.New(t, "C16", "generated node configurations (heartbeat on/off, period 20-80ms, system/autopilot type, dialect in {common, ardupilotmega, minimal, user dialects with version 0..255 with / without / with a fake HEARTBEAT or REQUEST_DATA_STREAM, none}, stream requests on/off, frequency 1..50, 1..3 channels, v1/v2 output) and histories of incoming heartbeats from generated (channel, system, component, autopilot) sources repeated several times and interleaved with other messages; oracles: heartbeats on every channel with the configured fields, status 4, dialect version, at most elapsed/period+1 of them and at least 2, none when disabled or the dialect lacks the standard message; for each distinct ArduPilot sender exactly the seven data-stream requests (1,2,3,6,10,11,12) at the configured rate addressed to it on its channel only plus one stream-requested event, nothing for other autopilots, other messages or when disabled; non-trivial = >=2 ArduPilot senders on >=2 channels plus a non-ArduPilot sender; distinct by hash of the scenario")
 	rec.Require("hb-enabled", "hb-disabled-or-missing", "sr-enabled-with-ardupilot", "sr-not-applicable", "multi-sender-multi-channel", "user-dialect", "v1-output", "several-channels-one-endpoint", "dialect-version-0", "ardupilot-sender-with-the-node's-own-ids")
 	evid.Check(t, rec, evid.N(200, 600), func(t *rapid.T) {
+		drawNodeInit(t)
 		w := &c16World{}
 		w.dialectKind = rapid.SampledFrom([]string{"common", "common", "ardupilotmega", "ardupilotmega", "ardupilotmega", "minimal", "user", "user", "user", "user-no-hb", "user-fake-hb", "user-no-rds", "user-fake-rds", "nil"}).Draw(t, "dialect")
 		w.version = rapid.OneOf(rapid.Just(0), rapid.SampledFrom([]int{0, 1, 3, 255, 256, 300}), rapid.IntRange(0, 255)).Draw(t, "version")
@@ -187,7 +188,7 @@ func runC16(w *c16World) ([]string, error) {
 		n.OutVersion = gomavlib.V2
 	}
 	t0 := time.Now()
-	if err := n.Initialize(); err != nil {
+	if err := initNode(&n); err != nil {
 		return nil, fmt.Errorf("BROKEN: %v", err)
 	}
 	rec := sim.StartRecorder(n, sim.Pacing{Kind: "fast"}, nil)
